@@ -446,6 +446,17 @@ func TestCommandsFixed(t *testing.T) {
 	// two failing targets in one command
 	vh.Fixed(t, prop, "two-failing", Case{Mode: "production", Queues: 1, Commands: []Command{
 		{Queue: 0, TimeoutMs: 150, Targets: []Target{{0, "reply", 0}, {1, "sendfail", 0}, {2, "silent", 0}, {3, "reply", 1}}}}}, run)
+	// a wide command most of whose targets stay silent: all the others are still sent to at once, and the command completes at
+	// its response timeout (3.5 s here, so that twice the timeout is beyond the tolerance of the completion deadline)
+	wide := Command{Queue: 0, TimeoutMs: 3500}
+	for i := 0; i < 26; i++ {
+		k := "silent"
+		if i%4 == 3 {
+			k = "reply"
+		}
+		wide.Targets = append(wide.Targets, Target{Task: i, Kind: k, Slot: i % 3})
+	}
+	vh.Fixed(t, prop, "wide-command-mostly-silent", Case{Mode: "production", Queues: 1, Commands: []Command{wide}}, run)
 	vh.Fixed(t, prop, "single-silent", Case{Mode: "production", Queues: 1, Commands: []Command{
 		{Queue: 0, TimeoutMs: 150, Targets: []Target{{0, "silent", 0}}}, {Queue: 0, TimeoutMs: 150, Targets: []Target{{0, "reply", 0}}}}}, run)
 }
